@@ -217,7 +217,8 @@ class VCSAPI:
         """List vcs tags on all branches."""
         ls_tag_lines = self('ls_tags_branch').split("\n")
         logger.debug(f"ls_tags_branch output {ls_tag_lines}")
-        return [line.strip(" \t\r").split(" ", 1)[0] for line in ls_tag_lines]
+        # NOTE: hg prints all tags of a changeset on one line, separated by blanks
+        return [tag for line in ls_tag_lines for tag in line.strip(" \t\r").split(" ") if tag]
 
     def add(self, path: str) -> None:
         """Add updates to be included in next commit."""
